@@ -30,10 +30,7 @@ func newC02Tracer(x *lRun) *c02Tracer {
 	c := &c02Tracer{x: x, accts: map[string]int{}, pool: map[string]int{}, touched: map[int]map[string]bool{}}
 	c.ammMod = authtypes.NewModuleAddress(ammtypes.ModuleName).String()
 	for _, p := range x.w.App.AmmKeeper.GetAllPool(x.w.QCtx()) {
-		i := 1
-		if p.PoolId == x.m.OraclePool {
-			i = 0
-		}
+		i := c01PoolIdx(x.m, p.PoolId)
 		c.pool[p.TotalShares.Denom] = i
 		c.touched[i] = map[string]bool{}
 	}
